@@ -353,25 +353,35 @@ Fixpoint pcalls_eqb (a b : list pcall) : bool :=
 Definition encoder_clauses (db : list cl) : list cl :=
   filter (fun c => negb (is_learnt c) && match ck c with KRoot => false | _ => true end) db.
 
-(* first solve on a fresh solver: model database and calls for the logged
-   completion order; all futures completed when encode returned / at the end *)
-Definition check_encoder (U : provider) (P : problem) (evs : list sev)
+(* a solve on a solver whose cache is c0 (cache0 for a fresh solver): model
+   database and calls for the logged completion order; all futures completed
+   when encode returned / at the end *)
+Definition check_encoder_from (c0 : ecache) (U : provider) (P : problem) (evs : list sev)
            (db : list cl) (calls : list pcall) : bool * bool * bool :=
-  match enc_run U P (estate0 cache0) [] [] evs with
+  match enc_run U P (estate0 c0) [] [] evs with
   | Some (st, work) =>
       (cls_same (encoder_clauses db) (e_db st), pcalls_eqb calls (e_calls st),
        match work with [] => true | _ => false end)
   | None => (false, false, false)
   end.
+Definition check_encoder := check_encoder_from cache0.
 
 (* for a run that ended with a solution: requests only for true variables, the
    events leave the dumped trail, everything selected was encoded *)
-Definition check_encoder_final (U : provider) (P : problem) (evs : list sev)
+Definition check_encoder_final_from (c0 : ecache) (U : provider) (P : problem) (evs : list sev)
            (trail : list lit) : bool * bool * bool :=
-  match enc_run U P (estate0 cache0) [] [] evs with
+  match enc_run U P (estate0 c0) [] [] evs with
   | Some (st, _) =>
       let tr := final_trail [] evs in
       (req_true_ok [] evs, lits_eqb (rev tr) trail,
        enc_final_ok U st (sel_of tr) (exempt P (sel_of tr)))
   | None => (false, false, false)
+  end.
+Definition check_encoder_final := check_encoder_final_from cache0.
+
+(* the cache a solve leaves behind for the next solve on the same solver *)
+Definition cache_after (c0 : ecache) (U : provider) (P : problem) (evs : list sev) : option ecache :=
+  match enc_run U P (estate0 c0) [] [] evs with
+  | Some (st, _) => Some (e_cache st)
+  | None => None
   end.
